@@ -3,6 +3,7 @@ CONSTANTS
   AddrNegCountPanic = FALSE
   OfflineSigSkipped = TRUE
   Level = 0
+  ExtraBases <- ExtraGen
 VIEW view
 PROPERTIES HeaderChecksOK
 INVARIANTS EveryTypeRoundTrips
